@@ -117,6 +117,15 @@ def run_metric(c):
     bad = np.zeros(tuple(s + 1 for s in c["shape"]))
     res["mismatch_rejected"] = all(common.exc_class(f, y, bad)[0] == "rej"
                                    for f in (ob.mse, ob.rmse, ob.nrmse, ob.rsquare))
+    # ... also when the two arrays differ in their NUMBER of dimensions and numpy could broadcast them
+    # ((N,) against (N, 1) or (N, N), (N, M) against (N, M, 1), a trailing or leading axis of length 1)
+    pairs = []
+    if y.ndim == 1:
+        pairs = [(y, y.reshape(-1, 1)), (y.reshape(-1, 1), y), (np.outer(y, y), y), (y, y.reshape(1, -1))]
+    elif y.ndim == 2:
+        pairs = [(y, y[..., None]), (y[..., None], y), (y, y[None, ...]), (y[:, 0], y[:, :1])]
+    res["ndim_mismatch_rejected"] = all(common.exc_class(f, a_, b_)[0] == "rej" for a_, b_ in pairs
+                                        for f in (ob.mse, ob.rmse, ob.nrmse, ob.rsquare))
     return res
 
 
@@ -238,6 +247,9 @@ def check_metric(ctx, c, o, mo):
             problems.append("R^2 not invariant under y -> a*y+c: " + e)
     if not r["mismatch_rejected"]:
         problems.append("arrays of different shapes were accepted")
+    if not r.get("ndim_mismatch_rejected", True):
+        problems.append("arrays with a different number of dimensions (broadcastable: (N,) against (N, 1) or (N, N), "
+                        "an extra axis of length 1) were accepted")
     # output shape of dimension-wise metrics
     want_len = (c["shape"][-1] if multi else 1) if use_dim else 1
     for name in ("mse", "rmse", "nrmse", "rsquare"):
